@@ -148,3 +148,21 @@ func (s *Stream) VerifState() (last interface{}, pending int, closed, dropped bo
 
 // VerifCatalog returns the published catalog (without locking).
 func (e *Engine) VerifCatalog() *Catalog { return e.catalog }
+
+// VerifRacy is called when more than one case of an awaited select is ready,
+// i.e. the Go runtime will pick one of them at random.
+var VerifRacy func(site string)
+
+// verifReady reports whether any case is ready and notes racy situations.
+func verifReady(site string, cases ...bool) bool {
+	n := 0
+	for _, c := range cases {
+		if c {
+			n++
+		}
+	}
+	if n > 1 && VerifRacy != nil {
+		VerifRacy(site)
+	}
+	return n > 0
+}
